@@ -857,6 +857,54 @@ func (g *c06Gen) quicCase(hs []byte, version uint32) *c06QuicCase {
 	return qc
 }
 
+// the shape real clients emit for a large ClientHello: CRYPTO data in stream order, about 1150
+// bytes per packet, one packet per 1200-byte datagram - as many datagrams as it takes (7-15 for
+// the 8-17 KB hellos); optionally two neighbouring datagrams swapped
+func (g *c06Gen) quicCaseManyDatagrams(hs []byte, version uint32) *c06QuicCase {
+	r := g.r
+	qc := &c06QuicCase{}
+	dcid := g.bytes([]int{8, 8, 16, 20}[r.Intn(4)])
+	scid := g.bytes([]int{0, 8}[r.Intn(2)])
+	typeBits := byte(0)
+	if version == c06QuicV2 {
+		typeBits = 1
+	}
+	base := 0
+	for off, i := 0, 0; off < len(hs); i++ {
+		n := min(len(hs)-off, r.Range(900, 1150))
+		p := c06CryptoFrame(uint64(off), hs[off:off+n], 0, 0)
+		if len(p) < 1160 {
+			p = append(p, make([]byte, 1160-len(p))...)
+		}
+		pk := &c06QuicPacket{Version: version, TypeBits: typeBits, Dcid: dcid, Scid: scid, Pn: uint32(i), PnLen: r.Range(1, 4), LenSz: 2, Payload: p}
+		if r.Chance(0.1) {
+			pk.Token = g.bytes(r.Range(71, 300))
+		}
+		raw := pk.Seal()
+		qc.oracle = append(qc.oracle, &c06Sealed{start: base, pnOff: pk.PnOffset, stop: pk.TotalLen, dcid: dcid, plain: p})
+		qc.datagrams = append(qc.datagrams, raw)
+		base += len(raw)
+		off += n
+	}
+	qc.class = append(qc.class, "many_datagrams", fmt.Sprintf("packets.%d", len(qc.datagrams)))
+	if len(qc.datagrams) > 2 && r.Chance(0.3) {
+		i := r.Intn(len(qc.datagrams) - 1)
+		c06SwapDatagrams(qc, i, i+1)
+		qc.class = append(qc.class, "datagrams.reordered")
+	}
+	return qc
+}
+
+// a ClientHello of at least `atLeast` bytes (handshake message)
+func (g *c06Gen) bigHello(atLeast int) *c06HelloCase {
+	for {
+		hc := g.hello()
+		if len(hc.h.Handshake()) >= atLeast && hc.class != "nonascii" {
+			return hc
+		}
+	}
+}
+
 // swap two datagrams and recompute the absolute packet offsets of the oracle
 func c06SwapDatagrams(qc *c06QuicCase, i, j int) {
 	starts := make([]int, len(qc.datagrams)+1)
